@@ -30,7 +30,57 @@ def origin_chain(repo, res, hops):
             res.bad("R30.1", f"{mod}.{q} forwards allow_unary to {callee}", "allow_unary is not passed: the callee's default is used regardless of the caller's choice", repo.loc(f))
 
 
+def sweep_exhaustive(repo, res, rid, sweeps):
+    """an edge sweep must continue until *both* the insertion and the removal index are exhausted
+    (removals of the last tree come after the last insertion): its loop test is the disjunction of
+    the two bounds, never their conjunction"""
+    n = 0
+    for mod, q in sweeps:
+        if not repo.has_fn(mod, q):
+            continue
+        f = repo.fn(mod, q)
+        inner = [w for w in own_nodes(f) if isinstance(w, ast.While) and isinstance(w.test, ast.BoolOp) and ("remove" in U(w.test) or "insert" in U(w.test))]
+        if len(inner) < 2:
+            continue
+        idx = set()
+        for w in inner:
+            for c in ast.walk(w.test):
+                if isinstance(c, ast.Compare) and isinstance(c.left, ast.Name) and isinstance(c.ops[0], ast.Lt):
+                    idx.add((c.left.id, U(c.comparators[0])))
+        outer = [w for w in own_nodes(f) if isinstance(w, ast.While) and any(i is x for i in inner for x in ast.walk(w)) and w not in inner]
+        if not outer:
+            continue
+        n += 1
+        t = outer[0].test
+        ok = False
+        if isinstance(t, ast.BoolOp) and isinstance(t.op, ast.Or):
+            have = {(c.left.id, U(c.comparators[0])) for c in t.values if isinstance(c, ast.Compare) and isinstance(c.left, ast.Name) and isinstance(c.ops[0], ast.Lt)}
+            ok = have == idx
+        elif isinstance(t, ast.Compare) and not any(isinstance(x, ast.Name) and (x.id, ) in {(i,) for i, _ in idx} for x in ast.walk(t)):
+            ok = True  # driven by the coordinate (left < sequence_length): runs to the end of the sequence
+        res.require(ok, rid, f"{mod}.{q} sweep runs until insertions and removals are both exhausted", f"outer loop test `{U(t)}` stops as soon as one index is exhausted: edge removals to the right of the last insertion are never processed, so nodes that become unary there are not seen", repo.loc(f, outer[0]), U(t))
+    if n == 0:
+        raise AnalysisError(f"{rid}: no edge sweep found")
+
+
 def run(repo, res):
+    res.rule("R30.2", "exhaustiveness of the detectors' traversals: the sweep of _contains_unary_nodes continues until both edge insertions and removals are exhausted; every consumer of edge_diffs() that derives the set of affected parents reads both edges_out and edges_in (a node becomes unary by losing a child as well as by gaining its first)")
+    sweep_exhaustive(repo, res, "R30.2", [("util", "_contains_unary_nodes")])
+    n_d = 0
+    for m_, q_, f_ in repo.all_funcs():
+        if m_ not in ("prior", "util", "phasing") or not any(isinstance(c, ast.Call) and U(c.func).endswith(".edge_diffs") for c in own_nodes(f_)):
+            continue
+        attrs = {a.attr for a in own_nodes(f_) if isinstance(a, ast.Attribute) and a.attr in ("edges_in", "edges_out")}
+        # tuple-unpacked diffs: (interval, edges_out, edges_in)
+        unpack = any(isinstance(n_, (ast.For,)) and isinstance(n_.target, ast.Tuple) and len(n_.target.elts) == 3 for n_ in own_nodes(f_)) or any(isinstance(n_, ast.Assign) and isinstance(n_.targets[0], ast.Tuple) and len(n_.targets[0].elts) == 3 and "next(" in U(n_.value) for n_ in own_nodes(f_))
+        n_d += 1
+        res.require(attrs == {"edges_in", "edges_out"} or unpack, "R30.2", f"{m_}.{q_} reads both directions of every edge diff", f"only {sorted(attrs)} is read: parents that lose a child (edges_out) / gain one (edges_in) at a breakpoint are not re-examined", repo.loc(f_), f"{sorted(attrs) or 'unpacked'}")
+    res.floor("edge_diff_consumers", n_d, 2)
+    res.rule("R30.3", "the span-counting pass's own unary finding (self.has_unary) raises ValueError unless allow_unary: the second detector cannot be silenced by the first one's gaps")
+    fp_ = repo.fn("prior", "SpansBySamples.first_pass")
+    hit_ = [(st, g) for st, g in stmts(fp_) if isinstance(st, ast.Raise) and "ValueError" in U(st) and any(pol and U(e) == "self.has_unary" for e, pol in bool_guards(g))]
+    ok_ = len(hit_) == 1 and any((not pol) and U(e) == "allow_unary" or (pol and U(e).replace(" ", "") == "notallow_unary") for e, pol in bool_guards(hit_[0][1]))
+    res.require(ok_, "R30.3", "prior.SpansBySamples.first_pass raises ValueError when has_unary and not allow_unary", "no `raise ValueError` under `self.has_unary and not allow_unary`: unary nodes found while counting spans only produce a warning", repo.loc(fp_))
     res.rule("R30.1", "allow_unary reaches ExpectationPropagation._check_valid_inputs and SpansBySamples.__init__ unchanged from the API (through **kwargs, self.allow_unary and the positional call of MixturePrior); each detector call is controlled only by `not allow_unary`, its positive result raises ValueError before any inference; contains_unary_nodes masks samples, has_locally_unary_nodes does not")
     origin_chain(repo, res, [
         ("core", "date", "estimation_methods[method]", "allow_unary", {"<param allow_unary>"}),
@@ -74,6 +124,9 @@ def run(repo, res):
 
 
 VARIANTS = [
+    dict(name="sweep-stops-at-last-insertion", mod="util", expect="fire", rule="R30.2", old="    a, b = 0, 0\n    while a < num_edges or b < num_edges:\n        check = set()", new="    a, b = 0, 0\n    while a < num_edges and b < num_edges:\n        check = set()"),
+    dict(name="diff-reads-insertions-only", mod="prior", expect="fire", rule="R30.2", old="        changed = {e.parent for edges in (ediff.edges_out, ediff.edges_in) for e in edges}", new="        changed = {e.parent for e in ediff.edges_in}"),
+    dict(name="backup-detector-only-warns", mod="prior", expect="fire", rule="R30.3", old="            else:\n                raise ValueError(\n                    \"The input tree sequence has unary nodes: tsdate currently \"\n                    \"requires these to be removed using `simplify(keep_unary=False)`\"\n                )\n        return node_spans", new="        return node_spans"),
     dict(name="ep-ignores-flag", mod="core", expect="fire", rule="R30.1", old="            allow_unary=self.allow_unary,\n            singletons_phased=singletons_phased,", new="            allow_unary=True,\n            singletons_phased=singletons_phased,"),
     dict(name="prior-flag-dropped", mod="core", expect="fire", rule="R30.1", old="                    approximate_priors=approx,\n                    allow_unary=self.allow_unary,\n", new="                    approximate_priors=approx,\n"),
     dict(name="positional-shift", mod="prior", expect="fire", rule="R30.1", old="        prior_distribution,\n        allow_unary,\n        progress,\n    )\n    return mixture_prior.make_discretised_prior(population_size, timepoints)", new="        prior_distribution,\n        progress,\n        allow_unary,\n    )\n    return mixture_prior.make_discretised_prior(population_size, timepoints)"),
